@@ -400,13 +400,39 @@ pub mod commit_overlay {
 			Ok(())
 		}
 
+		// Checks that every operation is allowed for the column. This is done for the whole
+		// commit before any of it is copied to the overlay.
+		pub fn validate(&self, options: &Options) -> Result<()> {
+			let ref_counted = options.columns[self.col as usize].ref_counted;
+			for change in self.changes.iter() {
+				match change {
+					Operation::Set(..) | Operation::Dereference(..) => (),
+					Operation::Reference(..) =>
+						if !ref_counted {
+							return Err(Error::InvalidInput(format!(
+								"No Rc for column {}",
+								self.col
+							)))
+						},
+					Operation::InsertTree(..) |
+					Operation::ReferenceTree(..) |
+					Operation::DereferenceTree(..) =>
+						return Err(Error::InvalidInput(format!(
+							"Invalid operation for column {}",
+							self.col
+						))),
+				}
+			}
+			Ok(())
+		}
+
 		pub fn copy_to_overlay(
 			&self,
 			overlay: &mut BTreeCommitOverlay,
 			record_id: u64,
 			bytes: &mut usize,
 			options: &Options,
-		) -> Result<()> {
+		) {
 			let ref_counted = options.columns[self.col as usize].ref_counted;
 			for change in self.changes.iter() {
 				match change {
@@ -424,26 +450,15 @@ pub mod commit_overlay {
 							overlay.insert(key.clone(), (record_id, None));
 						}
 					},
-					Operation::Reference(..) => {
-						// Don't add (we allow remove value in overlay when using rc: some
-						// indexing on top of it is expected).
-						if !ref_counted {
-							return Err(Error::InvalidInput(format!(
-								"No Rc for column {}",
-								self.col
-							)))
-						}
-					},
+					// Don't add (we allow remove value in overlay when using rc: some
+					// indexing on top of it is expected).
+					Operation::Reference(..) => (),
+					// Rejected by `validate`.
 					Operation::InsertTree(..) |
 					Operation::ReferenceTree(..) |
-					Operation::DereferenceTree(..) =>
-						return Err(Error::InvalidInput(format!(
-							"Invalid operation for column {}",
-							self.col
-						))),
+					Operation::DereferenceTree(..) => (),
 				}
 			}
-			Ok(())
 		}
 
 		pub fn clean_overlay(&mut self, overlay: &mut BTreeCommitOverlay, record_id: u64) {
